@@ -6,33 +6,19 @@ import Jose.Driver.Pure
 namespace Jose.Driver
 open Jose
 
-def worldOf (a : Json) : Cli.World :=
-  { stdin := (argStr? a "stdin").map unhex |>.getD [],
-    files := match a.get? "files" with
-      | some (.obj kvs) => kvs.filterMap (fun (k, v) => v.strVal?.map (fun h => (k, unhex h)))
-      | _ => [] }
-
-def resJson (r : Cli.Res) : Json :=
-  .obj [("status", .int r.status), ("stdout", .str (hexOfNats r.stdout)),
-        ("files", .obj (r.files.map (fun (f, t) => (f, Json.str (hexOfNats t)))))]
-
 def cliOps : List (String × (Json → Json)) := [
   ("cli.run", fun a =>
     let w := worldOf a
+    match cliPure a with
+    | some r => r
+    | none =>
     match argvOf a with
-    | "fmt" :: rest => fmtCli a rest
     | "jws" :: "ver" :: rest => resJson (Cli.jwsVer realPrims w rest)
     | "jws" :: "sig" :: rest => resJson (Cli.jwsSig realPrims w rest [])
-    | "jws" :: "fmt" :: rest => resJson (Cli.jwsFmt w rest)
     | "jwe" :: "dec" :: rest => resJson (Cli.jweDec realPrims w rest (List.replicate 600 0))
-    | "jwk" :: "pub" :: rest => resJson (Cli.jwkPub w rest)
-    | "jwk" :: "eql" :: rest => resJson (Cli.jwkEql w rest)
     | "jwk" :: "thp" :: rest => resJson (Cli.jwkThp realPrims w rest)
     | "jwk" :: "exc" :: rest => resJson (Cli.jwkExc realPrims w rest)
     | "jwk" :: "gen" :: rest => resJson (Cli.jwkGen realPrims w rest (List.replicate 2048 0))
-    | "jwk" :: "use" :: rest => resJson (Cli.jwkUse w rest)
-    | "b64" :: "enc" :: rest => resJson (Cli.b64Enc w rest)
-    | "b64" :: "dec" :: rest => resJson (Cli.b64Dec w rest)
     | _ => err "unmodelled-subcommand")
 ]
 end Jose.Driver
